@@ -358,15 +358,17 @@ CHECKS["C10"] = {
     "pkg": "./core/parsigex",
     "parallel": 4,
     "quick": [
-        {"harness": "VerifC10Peer", "params": {}, "redirects": _C10R},
+        {"harness": "VerifC10Peer", "params": {"second": [0, 1]}, "redirects": _C10R},
         {"harness": "VerifC10Randao", "params": {}, "redirects": _C10R},
+        {"harness": "VerifC10Sync", "params": {"second": [0, 1]}, "redirects": _C10R},
     ],
     "thorough": [
-        {"harness": "VerifC10Peer", "params": {}, "redirects": _C10R, "cross": True},
+        {"harness": "VerifC10Peer", "params": {"second": [0, 1]}, "redirects": _C10R, "cross": True},
         {"harness": "VerifC10Randao", "params": {}, "redirects": _C10R, "cross": True},
+        {"harness": "VerifC10Sync", "params": {"second": [0, 1]}, "redirects": _C10R, "cross": True},
     ],
     "bounds": {
-        "quick": "peer side only: one peer message with one partial signature; validator (two in the lock, one unknown), claimed share index (any byte), signed content, epoch (fork change at epoch 100), domain name (attester / randao / exit), slot (gated >= 200) and every ingredient of what the signature was actually made over (key, content, domain, epoch, validity) symbolic; once with a minimal Eth2SignedData type, once with the real core.SignedRandao",
+        "quick": "peer side only: one peer message with one partial signature; validator (two in the lock, one unknown), claimed share index (any byte), signed content, epoch (fork change at epoch 100), domain name (attester / randao / exit), slot (gated >= 200) and every ingredient of what the signature was actually made over (key, content, domain, epoch, validity) symbolic, a symbolically failing epoch lookup, optionally a second entry of another validator that is valid or not; once with a minimal Eth2SignedData type, once with the real core.SignedRandao, once with real core.SignedSyncMessage objects (slot-based epoch lookup through a beacon client whose first Spec call may fail; one or two validators in the set)",
         "thorough": "same, both solvers",
     },
     "outside": "the validator-client side (validatorapi.verifyPartialSig and the Submit*/Proposal/*Selections handlers: each needs its own eth2 input objects - not encoded); the wire decoding core.ParSignedDataSetFromProto (redirected to the set under test; C14); the other real Eth2SignedData types' Epoch/DomainName/MessageRoot implementations; the BLS algebra (ideal Verify plugged in through tbls.SetImplementation)",
